@@ -553,7 +553,8 @@ class Reaction(Object):
         """
         try:
             check_solver_status(self._model.solver.status)
-            return self.forward_variable.dual - self.reverse_variable.dual
+            # the reverse variable carries the same reduced cost with opposite sign
+            return self.forward_variable.dual
         except AttributeError:
             raise RuntimeError(f"reaction '{self.id}' is not part of a model")
         # Due to below all-catch, which sucks, need to reraise these.
